@@ -46,6 +46,7 @@ def setup(rep, tier):
     rep.minimum('R08.5', 3)
     rep.minimum('R08.6', 2)
     rep.minimum('R08.7', 1)
+    rep.minimum('R08.8', 1)
 
 
 def r08_1(rep, prog):
@@ -512,7 +513,37 @@ def r08_7(rep, prog):
         rep.holds('R08.7', inst, f.where(), '%d mantissa classes, BITRES=%d, table(s) %s' % (n, bitres, sorted(tables)))
 
 
+# ------------------------------------------------------------------ R08.8
+def r08_8(rep, prog):
+    """initial-bit patching must find the first byte of the stream wherever it currently lives: already in the buffer
+    (offs > 0), held back for carry propagation (rem >= 0), pending as the first of a run of 0xFF bytes (ext > 0), or
+    still inside val (nothing has been carried out yet).  The branch that patches val is therefore only correct when
+    ext == 0: at that store the fact `ext <= 0` (from an earlier `ext > 0` test) must hold."""
+    f = prog.fn('ec_enc_patch_initial_bits')
+    rep.functions.add(f.name)
+    cf = cfgm.CFG(f)
+    n = 0
+    for b, i, s_ in cf.positions():
+        if s_[0] == 'assign' and sx.kind(sx.strip(s_[1])) == 'field' and sx.strip(s_[1])[3] == 'val':
+            n += 1
+            facts = T.stable_facts(cf, b, i)
+            ok = any(isinstance(a[1], tuple) and isinstance(a[2], tuple) and (
+                (a[0] == '<=' and a[1][0] == 'field' and a[1][-1] == 'ext' and a[2] == ('int', 0)) or
+                (a[0] == '==' and a[1][0] == 'field' and a[1][-1] == 'ext' and a[2] == ('int', 0)) or
+                (a[0] == '<' and a[1][0] == 'field' and a[1][-1] == 'ext' and a[2] == ('int', 1))) for a in facts)
+            inst = '%s:ec_enc_patch_initial_bits patches val only when no byte is pending' % prog.config
+            where = '%s:%s' % (f.file, sx.line(s_))
+            if ok:
+                rep.holds('R08.8', inst, where, 'facts %s' % [T.show_atom(a) for a in facts][:4])
+            else:
+                rep.violated('R08.8', inst, where, 'the val branch is taken under %s, which does not exclude ext > 0: when the stream starts with 0xFF bytes (counted in ext, rem still -1, offs 0) the first byte is pending, and bits of a LATER byte are patched' %
+                             [T.show_atom(a) for a in facts][:4], key='patch-initial-bits-pending-ff')
+    if not n:
+        rep.unresolved('R08.8', '%s: no store to val in ec_enc_patch_initial_bits' % prog.config)
+
+
 def check(rep, prog, tier):
+    r08_8(rep, prog)
     r08_7(rep, prog)
     r08_5(rep, prog)
     r08_6(rep, prog)
